@@ -23,8 +23,9 @@ where a test-level object hands out the contract-level one.  Emitted:
     cache_key_depth_only : bool          lookup key and store key are exactly the depth
 
 Fail-closed: each link of the chain must be called exactly once in the module, by name, with plain
-positional / keyword arguments; run_tests must build the test's FunctionContext from
-`with_devdoc(ctx.args, ...)` and the shared `ctx`; run_tests / run_test / run_message must not store into
+positional / keyword arguments; run_tests must build the test's FunctionContext from the single
+`with_devdoc(BASE, ...)` and the shared `ctx`, where BASE starts as `ctx.args` and is either never reassigned
+(`test_cfg_base_src := SrcContract`) or is the loop-carried result of with_devdoc itself (`SrcTest`); run_tests / run_test / run_message must not store into
 the ContractContext; run_contract initialises the frontier with the post-setUp state alone
 (`ctx.frontier_states[0] = [setup_ex]`) and either leaves `ctx.visited` empty or registers exactly that state
 (`ctx.visited.add(get_state_id(setup_ex))`): emitted as `setup_state_visited : bool` (Model.init_ctx) -- before
@@ -226,20 +227,42 @@ def check_run_tests(tree):
     if not isinstance(kw["args"], ast.Name):
         _fail("run_tests: args= of the test's FunctionContext is not a plain name", kw["args"])
     cfg_name = kw["args"].id
-    defs = [n for n in _walk(fn) if isinstance(n, ast.Assign) and any(cfg_name in _target_names(t) for t in n.targets)]
-    if len(defs) != 1 or not (isinstance(defs[0].value, ast.Call) and isinstance(defs[0].value.func, ast.Name)
-                              and defs[0].value.func.id == "with_devdoc" and defs[0].value.args):
-        _fail(f"run_tests: {cfg_name} is not the single result of with_devdoc(...)", defs[0] if defs else fn)
-    base = defs[0].value.args[0]
-    base_src = _src(base)
-    if isinstance(base, ast.Name):
-        bdefs = [n for n in _walk(fn) if isinstance(n, ast.Assign) and any(base.id in _target_names(t) for t in n.targets)]
-        if len(bdefs) != 1:
-            _fail(f"run_tests: {base.id} assigned {len(bdefs)} times", fn)
-        base_src = _src(bdefs[0].value)
-    if base_src != f"{ps[0]}.args":
-        _fail(f"run_tests: the test config is derived from {base_src}, not from the contract-level config", defs[0])
-    return {"test_cfg": _src(defs[0].value), "contract_ctx": ps[0]}
+
+    def defs_of(name):
+        return [n for n in _walk(fn) if isinstance(n, ast.Assign) and any(name in _target_names(t) for t in n.targets)]
+
+    def is_devdoc(n):
+        return (isinstance(n.value, ast.Call) and isinstance(n.value.func, ast.Name) and n.value.func.id == "with_devdoc"
+                and len(n.value.args) >= 1)
+
+    dd = [n for n in defs_of(cfg_name) if is_devdoc(n)]
+    if len(dd) != 1 or len(calls_to(fn, "with_devdoc")) != 1:
+        _fail(f"run_tests: {cfg_name} is not the result of the single with_devdoc(...) call", fn)
+    loops = [n for n in _walk(fn) if isinstance(n, ast.For) and any(x is dd[0] for x in ast.walk(n))]
+    if len(loops) != 1:
+        _fail("run_tests: with_devdoc(...) is expected inside the single loop over the test functions", dd[0])
+    base = dd[0].value.args[0]
+    contract_cfg = f"{ps[0]}.args"
+    if _src(base) == contract_cfg:
+        base_defs = []
+    elif isinstance(base, ast.Name):
+        base_defs = defs_of(base.id)
+    else:
+        _fail("run_tests: the base config of with_devdoc(...) is neither a name nor the contract's config", base)
+    outside = [n for n in base_defs if not any(x is n for x in ast.walk(loops[0]))]
+    inside = [n for n in base_defs if any(x is n for x in ast.walk(loops[0]))]
+    if _src(base) != contract_cfg and not (len(outside) == 1 and _src(outside[0].value) == contract_cfg and len(outside[0].targets) == 1):
+        _fail(f"run_tests: the base config {_src(base)} does not start as the contract-level config", dd[0])
+    if not inside:
+        base_src = "SrcContract"          # every test: with_devdoc(<contract config>, funsig)
+    elif inside == [dd[0]]:
+        base_src = "SrcTest"              # loop-carried: with_devdoc(<config of the previous test>, funsig)
+    else:
+        _fail(f"run_tests: the base config {_src(base)} is reassigned inside the loop", inside[0])
+    # the test's own config must be used for nothing but the test (no other definition)
+    if [n for n in defs_of(cfg_name) if n is not dd[0] and n not in outside]:
+        _fail(f"run_tests: {cfg_name} has further definitions", fn)
+    return {"test_cfg": _src(dd[0].value), "contract_ctx": ps[0], "test_cfg_base_src": base_src}
 
 
 def check_run_contract(tree):
@@ -374,11 +397,15 @@ def translate(src_text):
         "(* ContractContext.frontier_states is read and written under the depth alone *)",
         f"Definition cache_key_depth_only : bool := {'true' if key_ok else 'false'}.",
         "",
+        "(* run_tests: the config of a test is with_devdoc(BASE, funsig); BASE is the contract's config for every test",
+        "   (SrcContract) or the config of the test that ran before it (SrcTest: annotations stack) *)",
+        f"Definition test_cfg_base_src : cfg_src := {rt['test_cfg_base_src']}.",
+        "",
         "(* run_contract registers the id of the post-setUp state in ContractContext.visited *)",
         f"Definition setup_state_visited : bool := {'true' if rc['setup_visited'] else 'false'}.",
         "",
     ]
-    info = {"explore_cfg_src": cfg_src, "frontier_test_inputs": tainted, "cache_key_depth_only": key_ok, "setup_state_visited": rc["setup_visited"],
+    info = {"explore_cfg_src": cfg_src, "frontier_test_inputs": tainted, "cache_key_depth_only": key_ok, "setup_state_visited": rc["setup_visited"], "test_cfg_base_src": rt["test_cfg_base_src"],
             "key_lookup": sorted(key_lookup), "key_store": sorted(key_store), "signatures": sigs, "run_tests": rt, "run_contract": rc,
             "target_cfg_provenance": sorted(cfg_lab)}
     return "\n".join(lines), info
